@@ -295,8 +295,46 @@ static size_t hs_mutate(Rng *r, uint8_t *rec, size_t len, size_t cap, int tls13,
 		put24(body + at, (size_t)v); snprintf(what, wl, "u24@%zu=%llu", at, (unsigned long long)(v & 0xffffff)); } break;
 	case 6: /* hello: session id of arbitrary length / no extensions / odd cipher list */
 		if ((ht == TLS_handshake_client_hello || ht == TLS_handshake_server_hello) && blen > 35) {
-			int sub = (int)rng_below(r, 3);
-			if (sub == 0) {
+			int sub = (int)rng_below(r, 4);
+			if (sub == 3 && ht == TLS_handshake_client_hello) {
+				/* the items of one list-valued extension (key_share, supported_groups, signature_algorithms) repeated,
+				 * all lengths consistent: a responder that answers per item must not outgrow its reply buffer */
+				size_t at = 35 + body[34];
+				if (at + 2 <= blen) at += 2 + (((size_t)body[at] << 8) | body[at + 1]);
+				if (at < blen) at += 1 + body[at];
+				if (at + 2 <= blen) {
+					size_t elen = ((size_t)body[at] << 8) | body[at + 1];
+					uint8_t *ex = body + at + 2;
+					if (at + 2 + elen <= blen) {
+						size_t offs[32]; int nl = 0;
+						for (size_t o = 0; o + 4 <= elen && nl < 32; ) {
+							size_t l = ((size_t)ex[o + 2] << 8) | ex[o + 3];
+							if (o + 4 + l > elen) break;
+							if (l >= 4 && ((((size_t)ex[o + 4] << 8) | ex[o + 5]) == l - 2)) offs[nl++] = o;
+							o += 4 + l;
+						}
+						if (nl) {
+							size_t o = offs[rng_below(r, (uint32_t)nl)];
+							size_t l = ((size_t)ex[o + 2] << 8) | ex[o + 3], items = l - 2;
+							int copies = 2 + (int)rng_below(r, 200);
+							static uint8_t blk[1024];
+							while (copies > 2 && (items * (size_t)copies > 60000 || at + 2 + elen + items * (size_t)(copies - 1) + 9 >= cap)) copies /= 2;
+							size_t add = items * (size_t)(copies - 1);
+							if (items && items <= sizeof(blk) && at + 2 + elen + add + 9 < cap && elen + add <= 65535) {
+								memcpy(blk, ex + o + 6, items);
+								memmove(ex + o + 4 + l + add, ex + o + 4 + l, elen - (o + 4 + l));
+								for (int cpy = 1; cpy < copies; cpy++) memcpy(ex + o + 6 + items * (size_t)cpy, blk, items);
+								size_t nl2 = l + add, ni = items * (size_t)copies, ne = elen + add;
+								ex[o + 2] = (uint8_t)(nl2 >> 8); ex[o + 3] = (uint8_t)nl2;
+								ex[o + 4] = (uint8_t)(ni >> 8); ex[o + 5] = (uint8_t)ni;
+								body[at] = (uint8_t)(ne >> 8); body[at + 1] = (uint8_t)ne;
+								blen += add;
+								snprintf(what, wl, "ext_%u_items_x%d", (unsigned)((ex[o] << 8) | ex[o + 1]), copies);
+							}
+						}
+					}
+				}
+			} else if (sub == 0) {
 				size_t sl = rng_below(r, 256), old = body[34];
 				if (35 + old <= blen && 9 + blen - old + sl <= cap) {
 					memmove(body + 35 + sl, body + 35 + old, blen - 35 - old);
